@@ -974,7 +974,8 @@ fn main() {
         let mut rng = Rng(c.seed);
         let cmp = |v: &RunOut, what: &str, oracle: &mut Vec<String>, f11: &mut usize| {
             for f in &v.flags {
-                oracle.push(format!("{what}:{f}"));
+                // properties of a single run keep their own name, whatever variant exposed them
+                oracle.push(f.clone());
             }
             if v.steps != base.steps {
                 oracle.push(format!("{what}:commits-differ"));
